@@ -592,20 +592,9 @@ _FLIGHT: Dict[str, Any] = {}
 
 def flight_server() -> Any:
     if "srv" not in _FLIGHT:
-        from mloda.core.runtime.flight.runner_flight_server import ParallelRunnerFlightServer
+        from harness.flight import start_private_flight_server
 
-        srv = ParallelRunnerFlightServer()
-        srv.start_flight_server_process()
-        _FLIGHT["srv"] = srv
-        import time
-        from mloda.core.runtime.flight.flight_server import FlightServer
-
-        for _ in range(100):  # wait until it answers
-            try:
-                FlightServer.list_flight_infos(srv.get_location())
-                break
-            except Exception:
-                time.sleep(0.1)
+        _FLIGHT["srv"] = start_private_flight_server()
     return _FLIGHT["srv"]
 
 
